@@ -13,6 +13,7 @@ import SlipVerif.Theorems.C14
     that swaps the arguments finds no match at all.
 -/
 namespace SlipVerif.Seq
+variable {α : Type}
 
 /-- `some`: nil when the predicate is false on every tuple; otherwise the VALUE the predicate returned on
     the first tuple on which it is true -/
